@@ -104,7 +104,9 @@ class Explainer:
                     self.cache[sql] = None
                     return None
                 for row in rows:
-                    op, p2, p3, p5 = row[1], row[3], row[4], row[6]
+                    op, p1, p2, p3, p5 = row[1], row[2], row[3], row[4], row[6]
+                    if op == "Clear" and p2 == 0 and roots.get(p1):     # DELETE without WHERE: truncate optimisation
+                        wr.add(roots[p1])
                     if op not in ("OpenRead", "OpenWrite") or p3 != 0:
                         continue
                     p5 = int(p5, 16) if isinstance(p5, str) and p5 else int(p5 or 0)
